@@ -150,10 +150,22 @@ class Unorderable:
         return "U#%r" % (self.uid,)
 
 
+class Ambiguous(Unorderable):
+    """An item whose truth value cannot be taken, like an array of several elements"""
+
+    __slots__ = ()
+
+    def __bool__(self):
+        raise ValueError("the truth value of this item is ambiguous")
+
+    def __repr__(self):
+        return "A#%r" % (self.uid,)
+
+
 def ident(x):
     """Deterministic identity of a value: the uid for items, structure for containers"""
     t = type(x)
-    if t is Item or t is Unorderable:
+    if t is Item or t is Unorderable or t is Ambiguous:
         return x.uid
     if t is tuple:
         return ("t",) + tuple([ident(e) for e in x])
